@@ -759,6 +759,17 @@ class Analysis:
                 inv = self.field_inv.get((tg[2][-1] + ".len", tg[1][-1]))
                 if inv:
                     res = inv
+            elif tg and tg[0] == "subslice" and tg[1]:
+                # a sub-slice (`&self.buf[pos..]`) is at most as long as the container it was cut from
+                inv = self.field_inv.get((tg[2][-1] + ".len", tg[1][-1]))
+                if inv:
+                    res = (0, inv[1])
+        elif re.search(r"ops::Index(Mut)?<.*>>::index(_mut)?$", c) and args and op_place(args[0]) and len(args) == 2 and "Range" in (body.locals[op_local(args[1])] if op_local(args[1]) is not None else ""):
+            k0 = self.key_of_place(op_place(args[0]))
+            tg = st.tags.get(k0) if k0 else None
+            if tg and tg[0] in ("refto", "subslice") and tg[1]:
+                self.write(st, t["dest"], None, tn, ("subslice", tg[1], tg[2]))
+                return
         elif name in ("get",) and "NonZero" in c and ty_range(dty):
             res = (1, ty_range(dty)[1])
         elif re.search(r"Deref>::deref$|Clone>::clone$|Borrow<.*>>::borrow$|AsRef", c) and ivs and ivs[0][0] is not None:
